@@ -22,6 +22,7 @@ INFER = [
     ("quantized_po2", dict(bits=4)), ("quantized_po2", dict(bits=6, max_value=4.0)), ("quantized_relu_po2", dict(bits=4)), ("quantized_relu_po2", dict(bits=4, negative_slope=0.25)),
     ("binary", dict(alpha=1.0)), ("binary", dict()), ("binary", dict(alpha=0.5, use_01=True)), ("ternary", dict(alpha="auto")), ("ternary", dict(alpha="auto_po2")),
     ("quantized_hswish", dict(bits=6, integer=2)),
+    ("quantized_po2", dict(bits=4, quadratic_approximation=True)), ("quantized_relu_po2", dict(bits=4, quadratic_approximation=True, negative_slope=0.25)),
 ]
 STOCH_CLASSES = [
     ("stochastic_binary", dict(), "binary", dict()), ("stochastic_binary", dict(alpha=0.5), "binary", dict(alpha=0.5)),
@@ -411,7 +412,7 @@ def run(tier, seed):
       train_po2(r, i, cls, kw, rng)
     except tfg.Unsupported as e:
       r.inconclusive_("cannot translate %s (training phase): %s" % (qz.cfg_str(cls, kw), e))
-  infer = INFER if tier == "thorough" else INFER[::2]
+  infer = INFER if tier == "thorough" else INFER[:-2:2] + INFER[-2:-1]
   for i, (cls, kw) in enumerate(infer):
     try:
       infer_equal(r, i, cls, kw, rng)
